@@ -312,7 +312,7 @@ UNITS += [
 
 UNITS += [
     Unit(name="prune_repack_finalize", file=PRU, kind="block", within="pub(crate) fn prune_repository<S: Open>(",
-         anchor="_ = tree_repacker.finalize()?;", block_end="p.finish();\n    }\n",
+         anchor="_ = tree_repacker.finalize()", block_end="p.finish();\n    }\n",
          block_sig="fn prune_repack_finalize(tree_repacker: VRepacker, data_repacker: VRepacker, indexer: &VRepackIndexer, w: &mut RepackFlush) -> (r: RusticResult<()>)",
          block_tail="        Ok(())",
          functions=["commands::prune::prune_repository (end of the repack branch: finalize both repackers, then the new index)"],
